@@ -97,12 +97,7 @@ theorem C04b_cursor_total (t : Tree V) (h : TreeInv t) (calls : List CCall) :
     · cases x <;> simp [stepA]
     · exact ih _ o ho
 
-/-- the `SeekTo` of the re-positioning in `next_backend` -/
-def reseekTo : LastKey → SeekTo
-  | .at k => .excl k
-  | .seeked k => .incl k
-  | .start => .incl []
-  | .end_ => .last
+-- `reseekTo` (the `SeekTo` of the re-positioning in `next_backend`): Pdb/Model/BTreeCursor.lean
 
 theorem reseek_eq (L : LastKey) : reseek L = curSeek (reseekTo L) := by
   cases L <;> rfl
